@@ -291,6 +291,59 @@ def model_term(o):
         cbool(alert != ""), cbool(bool(e.get("closed"))), cbool(bool(e.get("deliv"))))
 
 
+def replay(chk, path):
+    """bin/check C08 --replay <file>: re-run the single session of a stored finding (same seed and tier), with a
+    per-datagram trace, and say whether it still fails.  Unit-level findings (no session) re-run the whole check."""
+    import json
+    with open(path) as f:
+        body = json.load(f)
+    rp = body.get("replay") or {}
+    case = rp.get("case") or {}
+    cid = case.get("id", rp.get("case_id"))
+    if cid is None or cid < 0:
+        vlib.log("replay file names no session (unit-level or machinery finding): running the whole check")
+        chk.seed, chk.tier = body.get("seed", chk.seed), body.get("tier", chk.tier)
+        return run(chk)
+    seed, tier = body.get("seed", chk.seed), body.get("tier", chk.tier)
+    out = vlib.out_path("c08.replay.%d" % cid)
+    rc, o = vlib.go_test(".", "^TestVerifC08$", {"VERIF_SEED": seed, "VERIF_TIER": tier, "VERIF_OUT": out,
+                                                  "VERIF_C08_ONLY": cid, "VERIF_C08_TRACE": 1}, tags=["c08"], timeout=600)
+    rows = vlib.read_jsonl(out)
+    vlib.cleanup(out)
+    traces = [r for r in rows if r["kind"] == "trace"]
+    cs = [r for r in rows if r["kind"] == "case"]
+    why = []
+    if rc != 0 and is_crash(o):
+        msg, site, func = top_repo_frame(o)
+        why.append("the test binary crashed: %s" % ("livelock (watchdog)" if "c08 watchdog" in o else msg))
+    elif rc != 0:
+        chk.broken("replay run of case %d failed (%s)" % (cid, vlib.classify_go_failure(o)), o)
+    for c in cs:
+        for ob in c["obs"] or []:
+            v = obs_violation(ob)
+            if v:
+                why.append("a %s datagram %s" % (ob["class"], v))
+        if c["inj"] and not (c["done"] and c["echo_cs"] and c["echo_sc"]):
+            why.append("the session does not complete / echo afterwards (client=%s server=%s echo_cs=%s echo_sc=%s)" % (
+                c["cerr"], c["serr"], c["echo_cs"], c["echo_sc"]))
+        if c.get("inert") and c["done"] and (c["first_c"] != "payload" or c["first_s"] != "payload"):
+            why.append("first Read: client=%s server=%s" % (c["first_c"], c["first_s"]))
+        if c["qmax"] > 100 or c["fb_count"] > 1000 or c["fb_size"] >= 2000000:
+            why.append("limits: queue %d fragments %d bytes %d" % (c["qmax"], c["fb_count"], c["fb_size"]))
+        if c["gen"].startswith("flood-cache") and c["cache1"] - c["cache0"] > 50:
+            why.append("handshake cache grew by %d entries" % (c["cache1"] - c["cache0"]))
+    print("REPLAY case %d (%s, stage %s, generator %s): %d datagrams traced; %s" % (
+        cid, case.get("variant", cs[0]["variant"] if cs else "?"), case.get("stage", "?"), case.get("gen", "?"), len(traces),
+        "FAILS: " + "; ".join(why[:4]) if why else "no monitor fires"), flush=True)
+    if why:
+        chk.finding(body["site"], body["signature"], body["what"],
+                    {"replayed_from": path, "still_fails_because": why[:6], "case": cs[0] if cs else case,
+                     "datagrams": [{"target": t["target"], "gen": t["gen"], "class": t.get("note"), "hex": t["hex"]} for t in traces[-8:]],
+                     "how": "VERIF_SEED=%s VERIF_TIER=%s VERIF_C08_ONLY=%d VERIF_C08_TRACE=1 go test -run TestVerifC08" % (seed, tier, cid)})
+    chk.count("replay", max(len(traces), 1), [(cid,)])
+    chk.finish(level="proof", rule="replay of one session (case %d, seed %s, tier %s)" % (cid, seed, tier))
+
+
 def run(chk):
     if chk.tier != "thorough":
         # belt and braces next to the harness watchdog: no runaway test binary may eat the machine
@@ -439,7 +492,7 @@ def run(chk):
     # are delivered both ways, and the FIRST Read of each side returns the peer's payload, not an error.
     late, firsts = [], []
     for c in cases:
-        if not c.get("inert") or c["gen"].startswith("flood") or c["gen"] in ("slot", "pinlen") or c["inj"] == 0:
+        if not c.get("inert") or c["gen"].startswith("flood") or c["gen"] in ("slot", "pinlen", "lossinj", "dupfirst") or c["inj"] == 0:
             continue
         if any(obs_violation(o) for o in c["obs"] or []):
             continue  # already reported through the datagram that did it
@@ -474,6 +527,28 @@ def run(chk):
                      "datagrams": [o.get("hex") for o in c["obs"] or []], "case": c,
                      "all": [(x["id"], x["variant"], x["stage"], x["gen"], x["inj"]) for x in firsts[:20]]})
 
+    # ---- F62: a lost datagram must still be retransmitted after its sender got a harmless forged record;
+    #      F78: a re-framed copy of the pending genuine record arriving first must not stop the handshake
+    for gen, mon, text in (
+            ("lossinj", "retransmission cancelled by a harmless forged record",
+             "handshake datagram #%(stage)d was lost and at that moment its sender (%(target)s) received ONE unprotected fragment "
+             "of a far-future handshake message (small unused record number): it stopped retransmitting, the handshake "
+             "never completes"),
+            ("dupfirst", "handshake stopped by a re-framed copy of the pending genuine record",
+             "the first record of genuine handshake datagram #%(stage)d, re-framed into two fragments under a small unused record "
+             "number, reached the %(target)s before the genuine datagram: the handshake does not complete")):
+        gs = [c for c in cases if c["gen"] == gen and c["inj"] > 0]
+        bad = [c for c in gs if not (c["done"] and c["echo_cs"] and c["echo_sc"])]
+        if bad:
+            c = sorted(bad, key=lambda c: c["id"])[0]
+            found = True
+            chk.finding("internal/handshake fsm12.go / fsm13.go (retransmission after an unauthenticated handshake datagram)",
+                        {"monitor": mon},
+                        (text % c) + " [%d of %d cases; e.g. variant %s: client=%s server=%s]" % (
+                            len(bad), len(gs), c["variant"], c["cerr"], c["serr"]),
+                        {"how": "VERIF_C08_ONLY=%d VERIF_C08_TRACE=1" % c["id"], "variant": c["variant"], "stage": c["stage"],
+                         "target": c["target"], "datagrams": [o.get("hex") for o in c["obs"] or []], "case": c,
+                         "all": [(x["id"], x["variant"], x["stage"], x["target"]) for x in bad[:30]]})
     # ---- K-C08-2: the slot of a message the peer sends PROTECTED, taken by one unprotected record
     sl = [c for c in cases if c["gen"] == "slot" and c["inj"] > 0]
     bad = [c for c in sl if not (c["done"] and c["echo_cs"] and c["echo_sc"])]
